@@ -10,8 +10,6 @@
    the word permutation is the standard's P, the round constants come from the LFSR. *)
 EXTENDS Bytes
 
-Word == {w \in Seq(0..65535) : Len(w) = 4}
-
 \* ---- 64-bit word operations on limbs
 XorW(a, b) == <<a[1] ^^ b[1], a[2] ^^ b[2], a[3] ^^ b[3], a[4] ^^ b[4]>>
 AndW(a, b) == <<a[1] & b[1], a[2] & b[2], a[3] & b[3], a[4] & b[4]>>
